@@ -1313,7 +1313,8 @@ theorem step_unit_width (S : Schema) (doc doc' : Node) (st : Step) (hok : Around
     exact map_two_unit _ _ _ _ _ _ _ (by omega) (by omega) (by omega) (by omega) ⟨by omega, by omega⟩
   | _ => simp [Step.getMap, map_empty]
 
-/-- along a history of such maps the left chain of `i + 1` and the right chain of `i` stay one apart
+/-- (map-level lemma behind `hist_surviving_token_width` / `transform_surviving_token_width`)
+    along a history of such maps the left chain of `i + 1` and the right chain of `i` stay one apart
     for as long as the token survives; so "the token after `i` is never replaced" (`OutsideAll`) and
     "the token before `i + 1` is never replaced" (`OutsideAllL`) are the same condition -/
 theorem outsideAll_iff_left : ∀ (ms : List StepMap), (∀ m ∈ ms, UnitWidth m) → ∀ (i : Int),
@@ -1448,6 +1449,25 @@ theorem hist_maps_wf_delta (S : Schema) {d d' : Node} {steps : List Step} (h : H
       · exact i1 m hm
     · simp only [mapDeltaAll, List.map_cons, List.sum_cons] at i2 ⊢
       omega
+
+/-- **any history**: a token no step of the history replaces occupies exactly
+    `[mapFold … 1 i, mapFold … (-1) (i + 1))`, one position wide; "the token after `i` survives"
+    and "the token before `i + 1` survives" are the same condition -/
+theorem hist_surviving_token_width (S : Schema) {d d' : Node} {steps : List Step} (h : Hist S d steps d')
+    (hok : ∀ st ∈ steps, AroundOK st) (i : Int) :
+    (OutsideAll (steps.map Step.getMap) i ↔ OutsideAllL (steps.map Step.getMap) (i + 1)) ∧
+    (OutsideAll (steps.map Step.getMap) i →
+      mapFold (steps.map Step.getMap) (-1) (i + 1) = mapFold (steps.map Step.getMap) 1 i + 1) := by
+  refine outsideAll_iff_left _ ?_ i
+  clear i
+  induction h with
+  | nil d => simp
+  | @cons d d1 d' st sts happ _ ih =>
+    intro m hm
+    simp only [List.map_cons, List.mem_cons] at hm
+    rcases hm with rfl | hm
+    · exact step_unit_width S d d1 st (hok st List.mem_cons_self) happ
+    · exact ih (fun s hs => hok s (List.mem_cons_of_mem _ hs)) m hm
 
 /-- **Transform level, both sides, side conditions on the recorded steps only** (an attempted step
     that did not apply is asked nothing): the same-content statements of
